@@ -14,6 +14,7 @@ import (
 type C16Case struct {
 	Base Cfg   `json:"base"` // configuration without canaries
 	Reqs []Req `json:"reqs"` // preflight requests
+	Via  int   `json:"via,omitempty"` // history through which the debug-off state is reached; see mkMWVia
 }
 
 func (c C16Case) Brief() any {
@@ -43,6 +44,9 @@ func withCanaries(c Cfg) Cfg {
 
 func c16Gen(t *rapid.T) C16Case {
 	c := C16Case{Base: genValidCfg(t)}
+	if chance(t, "via", 50) {
+		c.Via = uniform(t, "viakind", nVia)
+	}
 	p := poolsOf(c.Base)
 	n := intIn(t, "nreqs", 4, 20)
 	for i := 0; i < n; i++ {
@@ -120,11 +124,12 @@ func hasCanary(s string) bool {
 
 func c16Check(c C16Case, rec *Recorder) *Disc {
 	cfg := withCanaries(c.Base)
-	m, err := mkMW(cfg, false)
+	m, err := mkMWVia(cfg, false, c.Via) // "debug off" however that state was reached
 	if err != nil {
 		rec.Class("rejected-config")
 		return nil
 	}
+	rec.Class(fmt.Sprintf("via-%d", c.Via))
 	mBase, errBase := mkMW(c.Base, false)
 	hstar, auth, names := listedReqHdrs(c.Base)
 	model := NewOriginModel(cfg.Origins)
@@ -260,7 +265,7 @@ func c16Check(c C16Case, rec *Recorder) *Disc {
 
 func TestC16(t *testing.T) {
 	Prop[C16Case]{ID: "C16", Gen: c16Gen, Check: c16Check,
-		Rule: "generator: valid configuration extended with canary entries (an origin, a method, a request-header and a response-header name that no generated request mentions), debug off, x batch of 4-20 arbitrary preflight requests (any Origin incl. malformed/multi-valued, any ACRM, 0-3 ACRH lines, ACRPN), all served through ONE wrapped handler (one Wrap call) in sequence so that state kept between requests shows. " +
+		Rule: "generator: valid configuration extended with canary entries (an origin, a method, a request-header and a response-header name that no generated request mentions), debug off - a state reached through one of six histories documented as equivalent (among them SetDebug(true), Reconfigure(nil), Reconfigure(c) with no SetDebug(false) afterwards) -, x batch of 4-20 arbitrary preflight requests (any Origin incl. malformed/multi-valued, any ACRM, 0-3 ACRH lines, ACRPN), all served through ONE wrapped handler (one Wrap call) in sequence so that state kept between requests shows. " +
 			"Oracle: ACAO present iff the reference outcome model (origin model + PNA switch + method rule + reference ACRH reader) says the preflight succeeds; no ACAO => no Access-Control-* header and the same status as a preflight from the null origin; ACAO => success status and only *, true, the configured max-age and tokens the request itself supplied (every ACAH token is *, the documented authorization next to *, or a token of the request's own ACRH lines), ACAC only on a credentialed configuration, ACAPN only if the request sent ACRPN: true; no canary substring anywhere; " +
 			"metamorphic: removing the canaries (and serving the request alone through a freshly wrapped handler) does not change the response (when the base keeps >=1 request-header entry). non-trivial = preflight from an allowed origin that fails at a later step, or succeeds with ACRH present; distinct by (configuration, request).",
 		Assumptions: []string{"a preflight from Origin: null is the reference failure for every configuration"}}.Run(t)
